@@ -24,10 +24,11 @@ type Ident struct{ Name string }
 type RegExp struct{ Pattern, Flags string }
 type ArrayLit struct{ Elems []Node } // nil element = hole
 type Prop struct {
-	Kind  string // "init" | "get" | "set"
-	Key   string // property name (value)
-	KeyAs string // "ident" | "string" | "number" : source form
-	Value Node   // init: expression; get/set: *Func
+	Kind   string // "init" | "get" | "set"
+	Key    string // property name (value)
+	KeyAs  string // "ident" | "string" | "number" : source form
+	KeyRaw string // optional source spelling of the key (C03)
+	Value  Node   // init: expression; get/set: *Func
 }
 type ObjectLit struct{ Props []Prop }
 type Func struct {
